@@ -335,6 +335,8 @@ class Exec:
         c = self.contract
         node = self.fnode
         if s.status == "raise":
+            if s.value in getattr(c, "may_raise", []):
+                return
             clauses = [r for r in c.raises if r["exc"] == s.value]
             if not clauses:
                 self.oblige(s, False, "no-exception[%s]" % s.value, s.ghost.get("__raise_node__", node),
@@ -898,6 +900,11 @@ class Exec:
         raise EngineError("%s:L%d: unsupported assignment target" % (self.fnname, target.lineno))
 
     def unpack(self, v, k, st, node):
+        if isinstance(v, MaybeNone):
+            # unpacking None raises TypeError
+            st.pending.append((list(st.pc), znot(v.present), "TypeError"))
+            st.assume(v.present)
+            v = v.value
         if isinstance(v, tuple):
             if len(v) != k:
                 self.oblige(st, False, "unpack-arity", node)
